@@ -147,6 +147,7 @@ package smtp
 //@   ensures c.replies == old(c.replies) + 1
 //@   ensures @C17 smtp-error-verbatim: istype(err, "*SMTPError") ==> c.lastCode == asref(err, "*SMTPError").Code
 //@   ensures @C17 generic-code: !istype(err, "*SMTPError") ==> c.lastCode == code
+//@   ensures @C17 unset-enhanced-code-of-a-backend-error-defaults-to-its-own-class: istype(err, "*SMTPError") && asref(err, "*SMTPError").EnhancedCode == EnhancedCodeNotSet ==> c.text.Writer.lastFormat == "%d %v.%v.%v %v" && c.text.Writer.lastEnh0 == c.lastCode / 100 && c.text.Writer.lastEnh1 == 0 && c.text.Writer.lastEnh2 == 0
 //@   ensures c.finals == old(c.finals) + (c.lastCode >= 300 && c.lastCode < 400 ? 0 : 1)
 
 //@ contract (*Conn).handleGreet(c, enhanced, arg)
@@ -185,12 +186,29 @@ package smtp
 //@   ensures @C03 at-most-one-callback: c.cbMail == old(c.cbMail) || c.cbMail == old(c.cbMail) + 1
 //@   ensures @C03 accepted-only-by-backend: c.fromReceived && !old(c.fromReceived) ==> c.cbMail == old(c.cbMail) + 1 && c.lastCode == 250
 //@   ensures @C03 refused-without-callback-is-5xx: c.cbMail == old(c.cbMail) ==> c.lastCode >= 500 && c.lastCode <= 599
+//@   before Session.Mail: @C11 mailbox-as-parsed-from-this-line: $1 == resultof("(*parser).parseReversePath", 1, 1) && $1 == from
+//@   before Session.Mail: @C11 fresh-options-object: $2 == opts && !wasalloc($2)
+//@   before Session.Mail: @C11 size-is-the-decoded-value-or-zero: (has(args, "SIZE") ==> $2.Size == puVal(args["SIZE"], 10)) && (!has(args, "SIZE") ==> $2.Size == 0)
+//@   before Session.Mail: @C11 flags-set-iff-present: ($2.UTF8 == has(args, "SMTPUTF8")) && ($2.RequireTLS == has(args, "REQUIRETLS"))
+//@   before Session.Mail: @C11 body-is-the-upper-cased-value-or-empty: (has(args, "BODY") ==> $2.Body == upperOf(args["BODY"])) && (!has(args, "BODY") ==> $2.Body == "")
+//@   before Session.Mail: @C11 ret-is-the-upper-cased-value-or-empty: (has(args, "RET") ==> $2.Return == upperOf(args["RET"])) && (!has(args, "RET") ==> $2.Return == "")
+//@   before Session.Mail: @C11 envid-is-the-decoded-value-or-empty: (has(args, "ENVID") ==> $2.EnvelopeID == xtextDec(args["ENVID"])) && (!has(args, "ENVID") ==> $2.EnvelopeID == "")
+//@   before Session.Mail: @C11 auth-set-iff-present: ($2.Auth != nil) == has(args, "AUTH")
+//@   before Session.Mail: @C11 only-known-parameters: forall k: string :: has(args, k) ==> k == "SIZE" || k == "SMTPUTF8" || k == "REQUIRETLS" || k == "BODY" || k == "RET" || k == "ENVID" || k == "AUTH"
 //@   before (*Conn).writeResponse: @C12 refused-504-only-if-disabled: $1 == 504 ==> (key == "SMTPUTF8" && !c.server.EnableSMTPUTF8) || (key == "REQUIRETLS" && !c.server.EnableREQUIRETLS) || (key == "BODY" && !c.server.EnableBINARYMIME) || ((key == "RET" || key == "ENVID") && !c.server.EnableDSN)
 //@   loop 1:
 //@     invariant opts != nil && !old(alloc(opts))
 //@     invariant c.replies == old(c.replies) && c.cbMail == old(c.cbMail) && c.fromReceived == old(c.fromReceived)
 //@     invariant @C06 size-within-limit: c.server.MaxMessageBytes > 0 ==> opts.Size <= c.server.MaxMessageBytes
 //@     invariant @C12 only-enabled-extensions: (opts.UTF8 ==> c.server.EnableSMTPUTF8) && (opts.RequireTLS ==> c.server.EnableREQUIRETLS) && (opts.Body == "BINARYMIME" ==> c.server.EnableBINARYMIME) && (opts.Return != "" || opts.EnvelopeID != "" ==> c.server.EnableDSN)
+//@     invariant @C11 size: (itvisited("SIZE") ==> opts.Size == puVal(args["SIZE"], 10)) && (!itvisited("SIZE") ==> opts.Size == 0)
+//@     invariant @C11 flags: opts.UTF8 == itvisited("SMTPUTF8") && opts.RequireTLS == itvisited("REQUIRETLS")
+//@     invariant @C11 body: (itvisited("BODY") ==> opts.Body == upperOf(args["BODY"])) && (!itvisited("BODY") ==> opts.Body == "")
+//@     invariant @C11 ret: (itvisited("RET") ==> opts.Return == upperOf(args["RET"])) && (!itvisited("RET") ==> opts.Return == "")
+//@     invariant @C11 envid: (itvisited("ENVID") ==> opts.EnvelopeID == xtextDec(args["ENVID"])) && (!itvisited("ENVID") ==> opts.EnvelopeID == "")
+//@     invariant @C11 auth: (opts.Auth != nil) == itvisited("AUTH")
+//@     invariant @C11 known: forall k: string :: itvisited(k) ==> k == "SIZE" || k == "SMTPUTF8" || k == "REQUIRETLS" || k == "BODY" || k == "RET" || k == "ENVID" || k == "AUTH"
+//@     invariant args != nil && (forall k: string :: itvisited(k) ==> has(args, k))
 
 //@ contract (*Conn).handleRcpt(c, arg)
 //@   prop C03 C04 C08 C11 C12
@@ -318,6 +336,11 @@ package smtp
 //@   prop C13
 //@   requires s != nil
 //@   modifies *chan
+//@   ensures @C13 every-recipient-channel-filled-to-capacity: forall a: string :: has(s.statusMap, a) ==> len(s.statusMap[a]) >= cap(s.statusMap[a])
+//@   loop 1:
+//@     invariant forall a: string :: itvisited(a) ==> len(s.statusMap[a]) >= cap(s.statusMap[a])
+//@   loop 2:
+//@     invariant forall a: string :: itvisited(a) && s.statusMap[a] != ch ==> len(s.statusMap[a]) >= cap(s.statusMap[a])
 
 //@ contract (*Conn).handlePanic(c, err, status)
 //@   prop C13 C19
@@ -470,7 +493,7 @@ package smtp
 //@   requires clientWF(c)
 //@   modifies c.ext, c.text.cmds, c.text.Reader.resps
 //@   ensures c.text.cmds == old(c.text.cmds) + 1
-//@   ensures @C10 capabilities-from-this-reply: err == nil ==> c.ext != nil && !wasalloc(c.ext)
+//@   ensures @C10,C15 capabilities-from-this-reply: err == nil ==> c.ext != nil && !wasalloc(c.ext)
 //@   ensures err != nil ==> c.ext == old(c.ext)
 //@   loop 1:
 //@     invariant ext != nil && !wasalloc(ext) && c.ext == old(c.ext) && c.text.cmds == old(c.text.cmds) + 1
@@ -611,6 +634,7 @@ package smtp
 //@   ensures @C18 exactly-one-reply-per-accepted-recipient: !old(d.closed) && d.c.lmtp && err == nil ==> d.c.text.Reader.resps == old(d.c.text.Reader.resps) + len(old(d.c.rcpts))
 //@   ensures @C18 never-more-replies-than-recipients: d.c.lmtp ==> d.c.text.Reader.resps <= old(d.c.text.Reader.resps) + len(old(d.c.rcpts))
 //@   ensures @C18 recipients-forgotten-when-the-transaction-ends: err == nil ==> len(d.c.rcpts) == 0
+//@   ensures @C18 recipients-forgotten-once-all-replies-are-read: !old(d.closed) && d.c.lmtp && d.c.text.Reader.resps == old(d.c.text.Reader.resps) + len(old(d.c.rcpts)) && d.WriteCloser.closes != old(d.WriteCloser.closes) && !istype(err, "*textproto.Error") && (err == nil || istype(err, "*SMTPError")) ==> len(d.c.rcpts) == 0
 //@   loop 1:
 //@     invariant 0 <= expectedResponses && expectedResponses <= len(d.c.rcpts) && d.c.rcpts == old(d.c.rcpts) && d.c.lmtp && d.closed && !old(d.closed)
 //@     invariant @C18 replies-so-far: d.c.text.Reader.resps == old(d.c.text.Reader.resps) + len(d.c.rcpts) - expectedResponses
@@ -694,3 +718,10 @@ package smtp
 //@   before (*Client).Auth: @C10 credentials-only-over-tls: istype(c.conn, "*tls.Conn")
 //@   before (*Client).SendMail: @C10 envelope-and-content-only-over-tls: istype(c.conn, "*tls.Conn") && noCRLF(from)
 //@   modifies *.Client.didGreet, *.Client.greetError, *.Client.didHello, *.Client.helloError, *.Client.ext, *.Client.rcpts, *.Client.conn, *.Client.text, *.textproto.Conn.cmds, *.textproto.Reader.resps, *.dataCloser.closed, *.io.WriteCloser.closes, *elems string
+
+//@ contract (*Conn).handleBdat$1()
+//@   prop C03 C04 C08 C13
+//@   requires connWF(c) && c.session != nil && sessOK(c) && sessCur(c.session) && c.fromReceived && len(c.recipients) >= 1 && r != nil && (c.server.LMTP ==> c.bdatStatus != nil) && c.server.ErrorLog != nil
+//@   requires @C04 result-channel-of-this-transfer-is-new-and-empty: c.dataResult != nil && len(c.dataResult) == 0
+//@   modifies c.cbData, *chan
+//@   ensures @C03 one-data-callback-per-transfer: c.cbData == old(c.cbData) + 1
